@@ -61,6 +61,10 @@ def main():
     if not quick:
         special += gen_edge_cases(rng, models, rots=(0, 1, 2, 3, 4), backend='c', record=0)
     lines += special
+    # re-used (stale) output arrays x degenerate forcing, every model
+    stale = gen_stale_output_cases(rng, models, reps=1 if quick else 4)
+    lines += stale
+    unwritten = UnwrittenOutputs()
     results = run_cases(lines)
     fp_lines, fp_idx = [], []
     for i, (l, r, raw) in enumerate(results):
@@ -113,6 +117,7 @@ def main():
             view_variants[str(r.get('view_variant'))] = view_variants.get(str(r.get('view_variant')), 0) + 1
         n_on_table += r.get('on_table_point_values', 0)
         add_positions(pos_table, r)
+        unwritten.add(l, r)
         max_cpg = max(max_cpg, r.get('max_cells_per_goroutine', 0))
         if not r['ok']:
             c.violation('run_%d.json' % i, {'kind': 'vectorised-run-differs-or-touches-more', 'fails': r['fails'], 'case_line': l,
@@ -134,6 +139,8 @@ def main():
                                                      'replay': 'echo "%s" | harness/bin/cellrun   (field "cells"); model: echo "%s" | ocaml/driver' % (l, fp_lines[fp_idx.index(i)][:300])})
         if i % 131 == 0:
             c.sample({'case': l, 'changed_elements': r.get('changed'), 'recorded_accesses': r.get('n_accesses')})
+
+    unwritten_cov = unwritten.report(c, 'C04')
 
     # ---------------- parameters applied repeatedly to / edited under a long-lived model object: every Run must
     # equal a fresh object given the current parameters (dimensioned models first, then all the others)
@@ -216,12 +223,12 @@ def main():
             c.violation('init_%s.json' % r['model'], {'kind': 'initialise-states-row-differs', 'fails': r['fails'], 'case_line': l,
                                                       'replay': 'echo "%s" | harness/bin/cellrun' % l})
     c.cov['rule'] = ('every model of sim.Catalog x (N,nSets,nIn) in %d shapes (nSets/nIn equal to, dividing, coprime with N) x T in {0,1,7,40} '
-                     '(plus a many-cells stream N in %s on %d cheap models, footprints recorded up to N=%d) every case (N <= 300) re-run with inputs / states / outputs / parameters handed over as VIEWS of larger sentinel-filled tables (two adjacent offset blocks run one after the other, strided rows with a spare column, time window, stepped time axis, parameter sub-matrix; Go- and C-backed): same results, parents untouched outside the views; plus PARAMSEQ: one long-lived model object gets parameters applied repeatedly (same / different number of sets, other dimension values, each cell alone with its column) and edited in place (with and without re-applying), every Run bit-identical to a fresh object given the current parameters; plus parameter-position streams (tables with a repeated breakpoint and inputs / states exactly on table points for the dimensioned models; every scalar parameter at exactly its range ends, exactly 0, its default, inside; a low-frequency out-of-range stream x100 / negated with nSets, nIn in {1,N}; mostly shared parameter sets / input blocks) x exact / padded outputs (canaries) x padded state columns x Go-/C-backed arrays; per case: vectorised run vs N '
+                     '(plus a many-cells stream N in %s on %d cheap models, footprints recorded up to N=%d) every case (N <= 300) re-run with inputs / states / outputs / parameters handed over as VIEWS of larger sentinel-filled tables (two adjacent offset blocks run one after the other, strided rows with a spare column, time window, stepped time axis, parameter sub-matrix; Go- and C-backed): same results, parents untouched outside the views; plus a stale-output stream (output arrays pre-filled with NaN / huge values instead of zeros x degenerate forcing: all inputs zero, one input zero, constant series; cold and warm starts; default and random parameters; reference = single-cell runs on fresh zero arrays; which output series a kernel writes must not depend on the inputs); plus PARAMSEQ: one long-lived model object gets parameters applied repeatedly (same / different number of sets, other dimension values, each cell alone with its column) and edited in place (with and without re-applying), every Run bit-identical to a fresh object given the current parameters; plus parameter-position streams (tables with a repeated breakpoint and inputs / states exactly on table points for the dimensioned models; every scalar parameter at exactly its range ends, exactly 0, its default, inside; a low-frequency out-of-range stream x100 / negated with nSets, nIn in {1,N}; mostly shared parameter sets / input blocks) x exact / padded outputs (canaries) x padded state columns x Go-/C-backed arrays; per case: vectorised run vs N '
                      'single-cell runs (two parameter packings) bit-for-bit, inputs/parameters bit-identical AND array descriptors (Shape, NDims, Len per axis of inputs, parameters, states, outputs) identical after every vectorised, single-cell and recorded Run; in every third case (and all many-cells cases) Run is called again on the same input/parameter objects (and with a second model instance) and must reproduce the first call bit for bit; recorded per-goroutine access '
                      'sets vs extracted Coq footprint; non-trivial = more than one cell; plus InitialiseStates(n) vs single-cell '
                      'InitialiseStates(1) (homogeneous / same state length: must agree; GR4J and Lag: every case compared bit for bit with the extracted model of InitialiseStates, nSets in {1,n,2,3} incl. non-divisors; heterogeneous lengths that behave exactly like the model: known finding)' % (len(SHAPES), MANY_N if quick else MANY_N + [511, 1000], len(MANY_MODELS), 129 if quick else 257))
     c.finish(extra_cov={'models': len(models), 'case_classes_hit': len(classes), 'recorded_footprint_cases': n_rec,
-                        'c_backed_cases': n_c, 'many_cells_cases': len(many), 'cases_also_run_on_views_of_larger_tables': n_views, 'view_variants': view_variants,
+                        'c_backed_cases': n_c, 'many_cells_cases': len(many), 'stale_output_degenerate_forcing_cases': len(stale), **unwritten_cov, 'cases_also_run_on_views_of_larger_tables': n_views, 'view_variants': view_variants,
                         'values_placed_exactly_on_table_points': n_on_table, 'long_lived_model_initseq_cases': len(seq_lines), 'long_lived_model_paramseq_cases': len(pseq_lines), 'paramseq_runs_compared_with_fresh_objects': pseq_steps, 'parameter_position_cases': len(special), 'skipped_kernel_rejects_draw': n_skipped, 'skipped_out_of_range_case_over_deadline': n_timeout,
                         'parameter_positions_drawn': positions_summary(pos_table), 'cases_with_repeated_run_on_same_objects': n_second, 'largest_cell_count': max_n,
                         'max_cells_handled_by_one_goroutine': max_cpg, 'heterogeneous_init_failures': n_het_fail, 'init_cases_compared_with_extracted_model': n_init_model, 'exhaustive': False, 'coqchk': chk},
